@@ -7,13 +7,14 @@
 (*   [ev |-> "msg", c, id, ts, vals]   the harness put message id of component*)
 (*        c on the API stream; ts = its timestamp (s after the epoch),        *)
 (*        vals[m] = the value it carries for metric m                         *)
-(*   [ev |-> "req", c, ns, m]          a ComponentMetricRequest was sent      *)
+(*   [ev |-> "req", c, ns, m, st]      a ComponentMetricRequest was sent      *)
+(*        (st: 0 = start_time None, 1 = the harness' fixed datetime)          *)
 (*   [ev |-> "iter", obs, gen, nent, ugen, unent, idle]  one loop iteration;  *)
 (*        obs in order:                                                       *)
-(*        [k |-> "take", c, ns, m]     the actor took that request            *)
+(*        [k |-> "take", c, ns, m, st] the actor took that request            *)
 (*        [k |-> "newrecv", c]         the source asked the API for a receiver*)
 (*        [k |-> "cons", c, id, ts]    a handler took message id from it      *)
-(*        [k |-> "dlv", c, ns, m, ts, val]  a sample arrived on the registry  *)
+(*        [k |-> "dlv", c, ns, m, st, ts, val]  a sample arrived on the registry*)
 (*             channel of that request (receivers drained after the iteration)*)
 (*        gen[c] changes when comp_data_tasks[c] is another task object,      *)
 (*        nent[c] = number of request entries held for c (-1: unavailable),   *)
@@ -40,19 +41,19 @@ Check(ok, clause, detail) == IF ok THEN TRUE ELSE Say([tid |-> Tr.id, l |-> 0, c
 
 ----------------------------------------------------------------------------
 (* (a) observation-only clauses *)
-Ev(k, c, ns, m, id, ts, val, aux) == [k |-> k, c |-> c, ns |-> ns, m |-> m, id |-> id, ts |-> ts, val |-> val, aux |-> aux]
+Ev(k, c, ns, m, st, id, ts, val, aux) == [k |-> k, c |-> c, ns |-> ns, m |-> m, st |-> st, id |-> id, ts |-> ts, val |-> val, aux |-> aux]
 B(b) == IF b THEN 1 ELSE 0
 LineEvents(x) ==
-    IF x.ev = "msg" THEN <<Ev("msg", x.c, 0, 0, x.id, x.ts, 0, x.vals)>>
-    ELSE IF x.ev = "req" THEN <<Ev("req", x.c, x.ns, x.m, 0, 0, 0, <<>>)>>
+    IF x.ev = "msg" THEN <<Ev("msg", x.c, 0, 0, 0, x.id, x.ts, 0, x.vals)>>
+    ELSE IF x.ev = "req" THEN <<Ev("req", x.c, x.ns, x.m, x.st, 0, 0, 0, <<>>)>>
     ELSE IF x.ev = "iter" THEN
-        [j \in 1..Len(x.obs) |-> Ev(x.obs[j].k, x.obs[j].c, x.obs[j].ns, x.obs[j].m, x.obs[j].id, x.obs[j].ts, x.obs[j].val, <<>>)]
-        \o <<Ev("end", 0, 0, 0, B(x.idle), 0, 0, <<x.gen, x.nent, <<x.ugen, x.unent>>>>)>>
-    ELSE <<Ev("final", 0, 0, 0, B(x.alive), 0, 0, <<>>)>>
+        [j \in 1..Len(x.obs) |-> Ev(x.obs[j].k, x.obs[j].c, x.obs[j].ns, x.obs[j].m, x.obs[j].st, x.obs[j].id, x.obs[j].ts, x.obs[j].val, <<>>)]
+        \o <<Ev("end", 0, 0, 0, 0, B(x.idle), 0, 0, <<x.gen, x.nent, <<x.ugen, x.unent>>>>)>>
+    ELSE <<Ev("final", 0, 0, 0, 0, B(x.alive), 0, 0, <<>>)>>
 RECURSIVE FlatFrom(_)
 FlatFrom(k) == IF k > NL THEN <<>> ELSE LineEvents(Tr.lines[k]) \o FlatFrom(k + 1)
 
-KeyE(e) == [c |-> e.c, ns |-> e.ns, m |-> e.m]
+KeyE(e) == [c |-> e.c, ns |-> e.ns, m |-> e.m, st |-> e.st]
 NoDup(s) == \A i, j \in 1..Len(s) : i # j => s[i] # s[j]
 CompIdx(c) == c          \* components are 1..NC: position in the recorded per-component arrays
 
@@ -159,7 +160,7 @@ ConsumeMsg ==
 
 ConsumeReq ==
     /\ l <= NL /\ Line.ev = "req"
-    /\ Request([c |-> Line.c, ns |-> Line.ns, m |-> Line.m]) /\ KeepH
+    /\ Request([c |-> Line.c, ns |-> Line.ns, m |-> Line.m, st |-> Line.st]) /\ KeepH
     /\ l' = l + 1 /\ oi' = 0 /\ UNCHANGED <<tid, ep0>> /\ Progress
 
 \* not observable: the actor finishes a request it had to look up in the API; a restarted handler
@@ -172,11 +173,11 @@ IterSilent ==
 IterObserved ==
     /\ l <= NL /\ Line.ev = "iter" /\ oi < Len(Line.obs)
     /\ LET o == Line.obs[oi + 1] IN
-         \/ o.k = "take" /\ reqq # <<>> /\ Head(reqq) = [c |-> o.c, ns |-> o.ns, m |-> o.m] /\ (ActorRecv \/ ActorTake)
+         \/ o.k = "take" /\ reqq # <<>> /\ Head(reqq) = [c |-> o.c, ns |-> o.ns, m |-> o.m, st |-> o.st] /\ (ActorRecv \/ ActorTake)
          \/ o.k = "newrecv" /\ o.c \in Comps /\ ~hasrecv[o.c] /\ HandlerStart(o.c)
          \/ o.k = "cons" /\ o.c \in Comps /\ HandlerRecv(o.c) /\ Head(apiq[o.c]) = o.id
-         \/ /\ o.k = "dlv" /\ o.c \in Comps /\ o.ns \in Namespaces /\ o.m \in Metrics
-            /\ LET k == [c |-> o.c, ns |-> o.ns, m |-> o.m] IN
+         \/ /\ o.k = "dlv" /\ o.c \in Comps /\ o.ns \in Namespaces /\ o.m \in Metrics /\ o.st \in Starts
+            /\ LET k == [c |-> o.c, ns |-> o.ns, m |-> o.m, st |-> o.st] IN
                  Send(o.c, k) /\ delivered'[k] = Append(delivered[k], IdOfTsT(o.c, o.ts))
     /\ KeepH
     /\ oi' = oi + 1 /\ UNCHANGED <<tid, l, ep0>>
